@@ -255,6 +255,22 @@ fn expect_rejected(what: &str, msg: &[u8], tail: &[u8], obs: &mut Obs) -> R {
     if let Ok((rl, m)) = r {
         return fail(format!("C04:invalid:{}:accepted", what), format!("{}: the message parser returned a value ({}, {} bytes left) for {}", what, trunc(&m), rl, hex_short(&buf)));
     }
+    // the public body parsers of that message type, called directly on exactly the declared body: never a value either
+    // (the contents-level and message-level parsers of one type are separate dispatch tables)
+    if msg.len() >= 4 {
+        const KNOWN: [(u8, usize); 16] = [(0, 0), (1, 1), (2, 2), (4, 4), (5, 5), (6, 6), (11, 7), (12, 8), (13, 9), (14, 10), (15, 11), (16, 12), (20, 13), (22, 14), (24, 16), (67, 15)];
+        let hl = (msg[1] as usize) << 16 | (msg[2] as usize) << 8 | msg[3] as usize;
+        if let (Some(k), true) = (KNOWN.iter().find(|k| k.0 == msg[0]).map(|k| k.1), msg.len() >= 4 + hl) {
+            let body = &msg[4..4 + hl];
+            let rs = guard("handshake body parsers", || body_parsers(k, body).into_iter().map(|(n, r)| (n, r.map(|(rem, m)| (rem.len(), format!("{:?}", m))).ok())).collect::<Vec<_>>())?;
+            for (n, r) in rs {
+                obs.evals_add(1);
+                if let Some((rl, m)) = r {
+                    return fail(format!("C04:invalid:{}:accepted-by:{}", what, n), format!("{}: {} called on the declared body returned a value ({}, {} bytes left) for {}", what, n, trunc(&m), rl, hex_short(&buf)));
+                }
+            }
+        }
+    }
     // wrapped in a record (payload = the message only): Error/Failure, never a value, never Incomplete
     if msg.len() <= RECORD_CAP {
         let mut e = Enc::new();
